@@ -196,3 +196,38 @@ PROPS = {
         "widen_n": 1500,
     },
 }
+
+# ---- engine-level properties: one harness driver (real engine, long-lived and one engine per
+# request over a store, on generated applications and input histories), one model, one monitor each
+ENGINE_MODEL = ["gen/Consts.v", "gen/EngConsts.v", "model/Bytes.v", "model/Errors.v", "model/Codec.v", "model/CacheModel.v",
+                "model/StateModel.v", "model/NavModel.v", "model/NavSpec.v", "model/RenderModel.v", "model/VmModel.v",
+                "model/EngineModel.v", "corr/CorrBase.v", "corr/EngineCorr.v", "corr/EngineMon.v"]
+ENGINE_RULE = ("a fixed corpus of hand-written applications (one per recorded or repaired defect and per session-end kind) followed by generated applications: "
+               "2-6 nodes plus _catch, each with a prologue of LOAD/RELOAD/MAP/CATCH/CROAK/MOUT/MNEXT/MPREV/MSINK, HALT, 0-5 INCMP lines (named, relative and missing targets, "
+               "duplicate selectors, wildcard anywhere) and an optional tail (MOVE / second HALT / end of code); templates with placeholders and translations, menu labels, "
+               "scripted entry functions (results of length 0 / short / at limit / over limit / multi-line, flag lists incl. reserved indices, failures, language switches), "
+               "output sizes 0 and 1..160, cache capacities, configured language / separator / reset-on-empty-input / entry function; input histories of 4-9 requests "
+               "(offered selectors, browse selectors, other selectors, empty, junk, refused patterns, over-long inputs). Every history is served by the real engine twice: one "
+               "long-lived engine (until it reports stop) and a new engine per request over a store (Exec, Flush, Finish). Compared with the model after every request: continue flag, "
+               "error class of Exec and Flush, output bytes, every exported State and Cache field, entry-function calls and code fetches in order, language of every template/menu "
+               "lookup. non-trivial = at least 2 requests; distinct by full case term")
+ENGINE_ASSUME = ["text/template restricted to literal text and {{.name}} placeholders (generated templates, labels and inputs contain no '{{')",
+                 "ISO 639 resolution is the table gen/EngConsts.v dumped from lang.LanguageFromCode for the codes the generator uses",
+                 "the CBOR round trip of persist.Persister is exercised (the persisted mode goes through the real Save/Load) but not modelled: the model's snapshot is the exported fields",
+                 "the run loop model is fuelled (3000 instructions per request); a case that would exhaust it is not compared (none does: generated applications put a HALT on every cycle)"]
+
+
+def _engine_prop(prop_file, files, n_quick=150, n_thorough=2500, extra_drivers=None, rule_prefix=""):
+    return {
+        "prop_file": prop_file,
+        "files": ["proofs/BytesProofs.v", "proofs/CodecProofs.v", "proofs/CacheProofs.v", "proofs/NavProofs.v", "proofs/RenderProofs.v", "proofs/VmProofs.v"] + files + [prop_file],
+        "model_files": ENGINE_MODEL,
+        "drivers": (extra_drivers or []) + [{"name": "engine", "n_quick": n_quick, "n_thorough": n_thorough, "timeout": 1200}],
+        "rule": rule_prefix + ENGINE_RULE,
+        "assumptions": ENGINE_ASSUME,
+        "widen_n": 600,
+    }
+
+
+PROPS["C07"] = _engine_prop("props/C07.v", [])
+PROPS["C08"] = _engine_prop("props/C08.v", [])
